@@ -59,7 +59,30 @@ def main():
             ok = False
     sh("git checkout -- . && rm -f tests/seeded_demo.rs && rm -rf target", cwd=wt)
     results = {}
-    if ok:
+    scratch = os.environ.get("SEED_SCRATCH") == "1" and os.path.realpath(ROOT) != "/verif"
+    if ok and scratch:
+        # snapshot mode (vp run): /repo is left alone. The patch is applied in the scratch worktree and this
+        # copy of /verif is pointed at it (harness path dependency + BP7_REPO for extract.py / the CLI build).
+        manifest = os.path.join(ROOT, "harness", "Cargo.toml")
+        orig = open(manifest).read()
+        rc, out = sh(f"git apply {patch}", cwd=wt)
+        try:
+            open(manifest, "w").write(orig.replace('path = "/repo"', f'path = "{wt}"'))
+            for p in props:
+                rc, out = sh(f"./check {p} --tier quick", cwd=ROOT, timeout=3600, env={"BP7_REPO": wt})
+                line = [l for l in out.splitlines() if l.startswith("VIOLATION") or l.startswith("OK ")]
+                results[p] = {"rc": rc, "line": line[-1] if line else out[-200:]}
+                if rc == 1:
+                    m = re.search(r"replay=(\S+)", out)
+                    if m and os.path.exists(m.group(1)):
+                        rp = json.load(open(m.group(1)))
+                        results[p]["replay_kind"] = rp.get("kind")
+                        results[p]["replay_ops"] = [o[:200] for o in rp.get("ops", [])[:2]]
+                        results[p]["oracle"] = rp.get("oracle", [])[:1]
+        finally:
+            open(manifest, "w").write(orig)
+            sh("git checkout -- . && rm -rf target", cwd=wt)
+    elif ok:
         # evidence/ is rewritten by every ./check run: keep the files of the clean tree
         ev, bak = os.path.join(ROOT, "evidence"), os.path.join(ROOT, ".build", "evidence.keep")
         shutil.rmtree(bak, ignore_errors=True)
@@ -85,8 +108,9 @@ def main():
                 sh("git -C /repo checkout -- .")
                 shutil.rmtree(ev, ignore_errors=True)
                 shutil.copytree(bak, ev)
-    st = subprocess.run("git -C /repo status --short", shell=True, capture_output=True, text=True).stdout
-    assert st.strip() == "", "repo not clean: " + st
+    if not scratch:
+        st = subprocess.run("git -C /repo status --short", shell=True, capture_output=True, text=True).stdout
+        assert st.strip() == "", "repo not clean: " + st
     out_dir = os.path.join(ROOT, "seeded", name)
     if ok:
         os.makedirs(out_dir, exist_ok=True)
